@@ -36,7 +36,8 @@ def hostile_string(rng, n=12):
 
 class C01(Spec):
     pid = "C01"
-    groups = ["vrender", "vansi"]
+    groups = ["vrender", "vansi", "vpub"]
+    no_compare_ops = ("item",)
     title = "Remote content can never emit terminal control sequences"
     oracle_filter = {"safe", "wf_out", "well_formed_result"}
     rule = ("JSON documents {content, mediaType} through the real object.GetMarkup -> Render path in the four media types (and the "
@@ -90,13 +91,37 @@ class C01(Spec):
                 for pos in range(len(seed) + 1):
                     for h in HOSTILE_RUNES:
                         cases.append(obj_case(seed[:pos] + h + seed[pos:], ["text/html", "text/plain", "text/gemini", "text/markdown"][si], [40]))
-        return [Batch("c01", cases, correspondence="GetMarkup+Render / style.Problem / Scrub == models")]
+        # item level: names, full texts, previews of posts, profiles, activities, collections, links and error items built from
+        # JSON whose every string field may carry control characters
+        import asgen
+        import c06
+        items = [c06.itemx_case({"type": "Person", "name": "A\x1b[2Jlice", "preferredUsername": "b\x1bob\x9b", "id": "https://h.example/u",
+                                 "summary": "bio\x07", "published": "2020-01-01T00:00:00Z\x1b"}, 1, [80, 10], [1]),
+                 c06.itemx_case({"type": "No\x1bte", "name": "t\x9b31m", "content": "x", "attachment": [{"type": "Image", "name": "al\x1b]0;t\x07", "url": "https://m.example/\x1b.png"}],
+                                 "attributedTo": {"type": "Person", "name": "\x1b[41mred"}}, 0, [80, 10], [1, 2])]
+        n = 400 if tier == "quick" else 30000
+        gens = [(asgen.post, 0), (asgen.actor, 1), (asgen.activity, 2), (asgen.collection, 3), (asgen.link, 4)]
+        for _ in range(n):
+            g, ctor = rng.choice(gens)
+            doc = g(rng, 2, 0.5) if ctor != 4 else g(rng, 0.5)
+            if not isinstance(doc, dict):
+                doc = {"type": "Link", "href": doc}
+            ws = [rng.choice((80, 30, 7))]
+            if ctor in (0, 1):
+                items.append(c06.itemx_case(doc, ctor, ws, [1, 2, 3]))
+            else:
+                items.append(c06.item_case(doc, ctor if rng.random() < 0.7 else 5, ws, [1, 2]))
+        return [Batch("c01", cases, correspondence="GetMarkup+Render / style.Problem / Scrub == models"),
+                Batch("c01-items", items, env={"VERIF_CASE_TIMEOUT": "20"},
+                      correspondence="Post/Actor Name, String, Preview == Pub model; every Tangible's texts pass the terminal oracle")]
 
     def search_batches(self, rng, tier):
         return [Batch("c01-search", self.gen(rng, 6000))]
 
     def nontrivial(self, case, res):
         s = case.meta.get("json") or ""
+        if case.op in ("item", "itemx"):
+            return bool(res["impl"]) and res["impl"][0] == 0 and "\\u00" in s
         return case.op != "objrender" or "\\u00" in s or "&#" in s
 
 
